@@ -84,7 +84,18 @@ async fn do_record(batcher: Shared, env: StdArc<StdMutex<Env>>, i: usize, yields
             env2.lock().unwrap().events.push(Ev::ClosureStart(idx, batch));
             Token { b: idx, env: StdArc::clone(&env2) }.await;
             env2.lock().unwrap().events.push(Ev::ClosureEnd(idx));
-            if fail[idx] { Err(Error::DZKPValidationFailed) } else { Ok(()) }
+            // the check may fail with any error: a proof failure, a MAC failure (the MAC validator shares this batcher), an
+            // internal or transport-level error - the kind rotates with the batch index
+            if fail[idx] {
+                Err(match idx % 4 {
+                    0 => Error::DZKPValidationFailed,
+                    1 => Error::MaliciousSecurityCheckFailed,
+                    2 => Error::Internal,
+                    _ => Error::ShuffleValidationFailed(format!("batch {idx}")),
+                })
+            } else {
+                Ok(())
+            }
         })
     };
     let r = fut.await;
